@@ -5,4 +5,5 @@ cd "$(dirname "$0")"
 export GOFLAGS=-mod=mod GOPROXY=off GOSUMDB=off GOTOOLCHAIN=local
 mkdir -p bin evidence replays
 (cd gosym && go build -o ../bin/gosym .)
+python3 gen_rt.py
 echo "gosym built"
